@@ -687,6 +687,46 @@ def run(ck, prog, ctx):
                         tested |= {a_[1].rsplit("::", 1)[-1] for a_ in pvb.of_operand(ib, o_) if a_[0] == "call" and a_[3] == ib.id and a_[1].rsplit("::", 1)[-1] in ("lhs", "rhs")}
             if pushed and tested:
                 ck.ob("BOOK", "leaves/%d" % n_, pushed == tested, "indicies() pushes `%s()` under a test of `%s()`" % ("/".join(sorted(pushed)), "/".join(sorted(tested))), where=ib.where(pt_.line))
+    # ---- the steps of the clustering happen on every way through: each constructor runs its clustering loop; the loop records a cluster, stores
+    # the merged set, stores the distances to it and drops the distances of the merged pair; the initial distances are stored
+    from engines import check_required_steps as _crs17
+    def _calls17(sfx):
+        return lambda t_: (t_.callee.res or "").endswith(sfx)
+    for ctor_, loop_ in (("union", "cluster_set_unions"), ("single", "arithmetic_cluster"), ("complete", "arithmetic_cluster"), ("average", "arithmetic_cluster")):
+        cb_ = prog.body(LINK + ctor_)
+        if cb_ is not None and prog.body(LINK + loop_) is not None:
+            _crs17(ck, "BOOK", prog, cb_, [("run the merge loop (%s)" % loop_, _calls17("::" + loop_))])
+    nb_ = prog.body(LINK + "new")
+    if nb_ is not None and prog.body(LINK + "calculate_initial_distances") is not None:
+        _crs17(ck, "BOOK", prog, nb_, [("compute the initial distances", _calls17("::calculate_initial_distances"))])
+    cid_ = prog.body(LINK + "calculate_initial_distances")
+    if cid_ is not None:
+        _crs17(ck, "BOOK", prog, cid_, [("store every initial distance", _calls17("DistanceMatrix::insert"))])
+    for nm in ("arithmetic_cluster", "cluster_set_unions"):
+        hb = prog.body(LINK + nm)
+        if hb is None:
+            continue
+        steps17 = [("record the new cluster", _calls17("::new_cluster")), ("store the distances to the new cluster", _calls17("DistanceMatrix::insert")), ("drop the distances of the merged pair", _calls17("DistanceMatrix::retain")),
+                   ("store the merged set", lambda t_: t_.callee.method == "push" and t_.args and "sets" in field_names_of(pvb.of_operand(prog.body(LINK + nm), t_.args[0])))]
+        # (a step is demanded when the helper / field it is phrased over exists on this tree: another bookkeeping may not have it)
+        exists17 = {"record the new cluster": prog.body(LINK + "new_cluster") is not None, "store the distances to the new cluster": prog.body("stats::linkage::DistanceMatrix::insert") is not None,
+                    "drop the distances of the merged pair": prog.body("stats::linkage::DistanceMatrix::retain") is not None,
+                    "store the merged set": any(f_.get("name") == "sets" for v_ in prog.adts.get("stats::linkage::Linkage", {}).get("variants", []) for f_ in v_.get("fields", []))}
+        _crs17(ck, "BOOK", prog, hb, [(l_, p_) for l_, p_ in steps17 if exists17[l_]])
+    # ---- union linkage: the set that is stored for the new cluster is put together from BOTH merged sets (each taken out of its slot)
+    ub_ = prog.body(LINK + "cluster_set_unions")
+    if ub_ is not None:
+        pvu = Prov(prog, inline=False)
+        takes_ = [bi_ for bi_, t_ in ub_.calls() if t_.callee.method == "take" and "Option" in (t_.callee.name or t_.callee.def_args or "")]
+        for pbi_, pt_ in ub_.calls():
+            if pt_.callee.method == "push" and len(pt_.args) == 2 and "sets" in field_names_of(pvu.of_operand(ub_, pt_.args[0])):
+                src_ = {a_[4] for a_ in pvu.of_operand(ub_, pt_.args[1]) if a_[0] == "call" and a_[3] == ub_.id and a_[4] in takes_}
+                src_ |= {a_[3] for a_ in pvu.of_operand(ub_, pt_.args[1]) if a_[0] == "mutcall" and a_[2] == ub_.id and False}
+                if len(takes_) >= 2:
+                    ck.ob("BOOK", "merged-set/cluster_set_unions", len(src_) >= 2, "cluster_set_unions stores for the new cluster a set made of %d of the %d sets it took out of their slots%s" % (len(src_), len(takes_), "" if len(src_) >= 2 else ": the new cluster's set lacks the terms of the other one"), where=ub_.where(pt_.line))
+    # ---- no truncating adaptor (skip / take / step_by ..) on the iterations of the clustering code: every set, every distance takes part
+    from engines import check_complete_iteration as _cci17
+    _cci17(ck, "BOOK", prog, [b_ for b_ in sorted(prog.production(), key=lambda z: z.id) if (b_.file or "").startswith("src/stats/linkage") and b_.kind in ("Fn", "AssocFn") and not b_.test and any(t_.callee.trait == "std::iter::Iterator" for fb_ in prog.family(b_) for _, t_ in fb_.calls())], "the sets / distances it iterates")
     from engines import check_parallel_vectors as _cpv
     ck.rule("PARALLEL", "two Vec fields of one struct that a method edits together are edited at the same position")
     ck.extra["side-by-side vector edits examined"] = _cpv(ck, "PARALLEL", prog, [b_ for b_ in prog.production() if (b_.file or "").startswith(("src/stats/linkage",))])
